@@ -115,7 +115,15 @@ def run():
     def add(op, a, b, expect=None):
         rid = str(len(reqs))
         form = rng.choice([0, 0, 0, 1, 2]) if op != "neg" else rng.choice([0, 1])
-        reqs.append({"id": rid, "src": src_for(op, a, b, form)})
+        src = src_for(op, a, b, form)
+        if rng.random() < 0.12:
+            # history: a descendant of Int (or Float) that overrides this very operator was used earlier in the process
+            sym = {"neg": "-%"}.get(op, op)
+            base = rng.choice(["Int", "Int", "Float"])
+            lit = {"Int": "10", "Float": "2.5", "Num": "10"}[base]
+            src = (f"P := {base}.bear({{'{sym}: m{{|o| 'overridden}}}}); p1 := P.new({lit}); " +
+                   (f"(-p1); " if op == "neg" else f"p1 {op} 3; p1.{op}(3); ") + src)
+        reqs.append({"id": rid, "src": src})
         meta[rid] = (op, a, b, expect)
 
     for c in small:
